@@ -24,7 +24,9 @@ META = {
 
 ATTRS = [{'stroke': 'red', 'fill': 'none', 'xml:space': 'preserve'}, {'stroke-width': '2.5', 'id': 'second one', 'stroke': '#00ff00'}]
 SVG_ATTRS = {'width': '300px', 'height': '200px', 'viewBox': '0 0 30 20'}
-SVG_ATTR_SETS = {'full': SVG_ATTRS, 'width-only': {'width': '300px', 'viewBox': '0 0 30 20'}, 'height-only': {'height': '200px'}}
+SVG_ATTR_SETS = {'full': SVG_ATTRS, 'width-only': {'width': '300px', 'viewBox': '0 0 30 20'}, 'height-only': {'height': '200px'},
+                 # document-wide defaults on <svg> whose names also occur per path, with other values
+                 'overlap': {'id': 'drawing', 'fill': 'black', 'stroke': 'grey', 'stroke-width': '1', 'width': '300px', 'height': '200px', 'viewBox': '0 0 30 20'}}
 
 
 def build_paths(spec):
@@ -32,6 +34,10 @@ def build_paths(spec):
     paths = []
     idx = 0
     for kinds in spec:
+        if kinds == 'dup0':
+            # the same path data a second time (e.g. an outline drawn twice with different strokes)
+            paths.append(Path(*list(paths[0])))
+            continue
         segs = []
         for k in kinds:
             s = mkseg(k, idx, None)
@@ -63,7 +69,10 @@ try:
     got_attrs = None; got_svg = None
     if reader == 'svg2paths2': out, got_attrs, got_svg = svg2paths2(fn)
     elif reader == 'Document': out = Document(fn).paths(); got_attrs = [dict(p.element.attrib) for p in out]
-    else: out = SaxDocument(fn).flatten_all_paths()
+    else:
+        sd_ = SaxDocument(fn); out = sd_.flatten_all_paths()
+        if len(sd_.tree) == len(out): got_attrs = [dict(e) for e in sd_.tree]
+        got_svg = dict(sd_.root_values)
 finally:
     os.remove(fn)
 if len(out) != len(paths): REPRODUCED('%%s -> %%s: %%d paths written, %%d read back' %% (writer, reader, len(paths), len(out)))
@@ -123,7 +132,11 @@ def fam_roundtrip(R, writer, reader, spec, svgset='full'):
                     out = DOC.Document(fn).paths()
                     got_attrs = [dict(p_.element.attrib) for p_ in out]
                 else:
-                    out = SAX.SaxDocument(fn).flatten_all_paths()
+                    sd_ = SAX.SaxDocument(fn)
+                    out = sd_.flatten_all_paths()
+                    if len(sd_.tree) == len(out):
+                        got_attrs = [dict(e_) for e_ in sd_.tree]
+                    got_svg = dict(sd_.root_values)
         finally:
             if os.path.exists(fn):
                 os.remove(fn)
@@ -256,6 +269,9 @@ def families(tier):
                 if tier == 'quick' and writer != 'wsvg' and i not in (1, 3):
                     continue
                 fams.append(('%s-%s-%d' % (writer, reader, i), M, 'fam_roundtrip', {'writer': writer, 'reader': reader, 'spec': spec}))
+    for reader in ('svg2paths2', 'Document', 'SaxDocument'):
+        fams.append(('wsvg-%s-overlapping-attribute-names' % reader, M, 'fam_roundtrip', {'writer': 'wsvg', 'reader': reader, 'spec': [('L',), ('Q',)], 'svgset': 'overlap'}))
+        fams.append(('wsvg-%s-duplicate-path-data' % reader, M, 'fam_roundtrip', {'writer': 'wsvg', 'reader': reader, 'spec': [('C', 'L'), 'dup0']}))
     for ss in ('width-only', 'height-only'):
         fams.append(('wsvg-svg2paths2-svgattrs-%s' % ss, M, 'fam_roundtrip', {'writer': 'wsvg', 'reader': 'svg2paths2', 'spec': [('L',)], 'svgset': ss}))
     for loaded in (False, True):
